@@ -27,3 +27,12 @@ Theorem C18_nocopy_sites :
   valuespec_nocopy_default = enc_origins [].
 Proof. exact nocopy_sites_ok. Qed.
 Print Assumptions C18_nocopy_sites.
+
+(* "threaded through nested specs": inside pack.py / unpack.py no ValueSpec is built from scratch -- every item spec is
+   spec.copy(...) (= dataclasses.replace, K118c) and so carries the holder's no_copy_collections; the sites that fill
+   the option are ValueSpec constructions *)
+Theorem C18_item_specs_inherit :
+  existsb in_types_package valuespec_ctor_sites = false /\
+  forallb (fun s => existsb (String.eqb s) valuespec_ctor_sites) nocopy_write_sites = true.
+Proof. exact item_specs_inherit. Qed.
+Print Assumptions C18_item_specs_inherit.
